@@ -30,7 +30,11 @@ func transformKeyValue(data any, p tree.Path, ignoreParseError bool) (any, error
 	case []any:
 		mapping := map[string]any{}
 		for _, e := range v {
-			before, after, found := strings.Cut(e.(string), "=")
+			str, ok := e.(string)
+			if !ok {
+				return nil, fmt.Errorf("%s: invalid type %T, expected key=value", p, e)
+			}
+			before, after, found := strings.Cut(str, "=")
 			if !found {
 				if ignoreParseError {
 					return data, nil
